@@ -37,7 +37,7 @@ def judge(ctx, execs, tally):
             tally.violation(v)
     any_status = [((e.short or {}).get("pulp_status")) for e in execs]
     crits = [c[0] for c in ctx.crits]
-    if not ctx.crits:
+    if not ctx.crits and not ctx.partial:
         # the back end may return every feasible point: both directions
         if "Optimal" in any_status or "Infeasible" in any_status:
             missing = [M for M in stable if M not in reported]
@@ -72,6 +72,7 @@ def judge(ctx, execs, tally):
 
 
 def main(tier):
+    from . import c02
     return sweep.run_lp_check(
         PID, LEVEL, tier, judge,
         "every two-sided instance x {-pc} x -stab x {none, maxsize, minsize}; for no "
@@ -81,6 +82,7 @@ def main(tier):
         extra=lambda t: {k: t.c.get(k, 0) for k in
                          ("both_direction_items", "size_items",
                           "items_without_stable_matching")},
+        interleave_opts=c02.INTERLEAVE_OPTS[:5],
         vacuity=lambda t: None if t.c.get("nontrivial") else "no item separates stable from unstable")
 
 
